@@ -42,7 +42,7 @@ func genClientHeaders(rng *vh.Rng) []string {
 		lines = append(lines, rng.Pick(idNames)+": "+rng.Pick([]string{"admin@corp.example", "root", "", "real-user@example.com"}))
 	}
 	for k := rng.Intn(3); k > 0; k-- {
-		lines = append(lines, rng.Pick([]string{"Authorization", "authorization", "AUTHORIZATION"})+": "+rng.Pick([]string{"Bearer abc", "Basic Zm9vOmJhcg==", "x"}))
+		lines = append(lines, rng.Pick([]string{"Authorization", "authorization", "AUTHORIZATION"})+": "+rng.Pick([]string{"Bearer abc", "Basic Zm9vOmJhcg==", "x", "", ""}))
 	}
 	for k := rng.Intn(4); k > 0; k-- {
 		lines = append(lines, rng.Pick([]string{"X-Other", "Accept", "Cookie", "X-Inverting-Proxy-User", "Proxy-Authorization-X"})+": "+rng.Pick([]string{"a", "b", "text/html", "k=v"}))
